@@ -297,3 +297,11 @@ def generic_array_model(ex, st, fr, name, args, dty):
     def cont(s2):
         return ex.uninterp(s2, fr, name, args, dty)
     return fork(ex, st, fr, z3.Bool('exact_len!%d' % next(ex.fresh)), 'conversion into a fixed-size GenericArray from a source whose length is not checked (%s)' % sn.split('::')[-1], cont)
+
+
+@model(r'<(\w+::)*OneOrMany<.*> as (\w+::)*Index(Mut)?<.*>>::index(_mut)?$')
+def one_or_many_index_model(ex, st, fr, name, args, dty):
+    """OneOrMany indexes its slice view: out of range (in particular any index into an empty Many) panics"""
+    def cont(s2):
+        return ex.uninterp(s2, fr, name, args, dty)
+    return fork(ex, st, fr, z3.Bool('in_range!%d' % next(ex.fresh)), 'index out of range: %s' % strip_generics(name), cont)
